@@ -19,6 +19,7 @@ pub use super::sequence::{SEQ_TRACKING_SIZE, SEQUENCE_TRACKING_MAX_AGE_MS, Seque
 pub use super::uplink::{
     ConnIo, ConnIoMap, ConnectionId, ReaderHandle, UplinkPacket, create_uplink_channel,
 };
+pub use super::uplink::{restart_reader_for, spawn_reader, sync_readers};
 pub use super::uplink_recv::process_uplink_packet;
 
 /// Public wrapper around the crate-private NAK attribution.
